@@ -13,6 +13,7 @@ import (
 	"fmt"
 	"os"
 	"os/exec"
+	"path/filepath"
 	"runtime/debug"
 	"strings"
 	"time"
@@ -31,8 +32,12 @@ var Check = core.Check{
 }
 
 // excluded: functions that by design block, terminate the program or need a
-// terminal/interactive input. Everything not listed here is tested. The key is
-// name/arity; the value is the reason.
+// terminal/interactive input (name/arity -> reason). Everything not listed here is
+// tested. The list is empty: behind the virtual OS of fqrun (stdin is an empty
+// reader, Readline returns EOF, History is empty, stdout/stderr are buffers) none
+// of repl, input, inputs, paste, _readline, _stdio_read, history, open blocks or
+// needs a terminal, and none of the enumerated functions halts the interpreter
+// (halt/halt_error are gojq builtins, not fq additions), so all of them are run.
 var excluded = map[string]string{}
 
 const chunkSize = 1024
@@ -62,9 +67,9 @@ func run(r *core.Run) {
 		}
 	}
 	w.lim = limits{
-		softStep: core.Pick(r, 2*time.Second, 10*time.Second),
+		softStep: core.Pick(r, 2*time.Second, 6*time.Second),
 		fastStep: core.Pick(r, 250*time.Millisecond, 1*time.Second),
-		hardStep: core.Pick(r, 15*time.Second, 45*time.Second),
+		hardStep: core.Pick(r, 5*time.Second, 15*time.Second),
 		softWall: core.Pick(r, 60*time.Second, 120*time.Second),
 		hardWall: core.Pick(r, 120*time.Second, 240*time.Second),
 		softHeap: 2560 << 20,
@@ -72,13 +77,11 @@ func run(r *core.Run) {
 	}
 	defer func() { w.t.flush(r) }()
 
-	s, err := fqrun.NewSession(nil)
-	if err != nil {
-		r.NotExhaustive("interpreter could not be created: " + err.Error())
-		return
+	cacheDir := ""
+	if out := os.Getenv("VERIF_SHARD_OUT"); out != "" && r.IsChild {
+		cacheDir = filepath.Dir(out)
 	}
-	cat, err := buildCatalog(s, r.Repo)
-	s.Close()
+	cat, err := loadOrBuildCatalog(cacheDir, r.Repo)
 	if err != nil {
 		r.Violate("harness:catalog", "function catalog could not be built: "+err.Error(), nil)
 		return
@@ -108,14 +111,14 @@ func run(r *core.Run) {
 	}
 	fullArity := 2
 	// cap on the full product of one function (only display/2, whose pool has ~120
-	// option objects, exceeds it); above it the "mixed" shape of pool.go is used
+	// option objects, exceeds it); above it a reduced shape of pool.go is used
 	fullCap := core.Pick(r, int64(250_000), int64(6_000_000))
 	var chunks []*chunk
 	var seq int64
 	var nfn, nexcluded int
 	var totalTuples int64
 	perArity := map[int]int64{}
-	var excl []string
+	excl := []string{}
 	covering := map[string]any{}
 	for _, f := range cat.public {
 		if why, ok := excluded[f.Key.String()]; ok {
@@ -128,7 +131,7 @@ func run(r *core.Run) {
 		}
 		nfn++
 		var extra []string
-		if thorough && f.Key.Arity == 1 && reachesOptions(cat, f) {
+		if thorough && f.Key.Arity == 1 && f.ReachesOptions {
 			have := map[string]bool{}
 			for _, k := range f.Keys {
 				have[k] = true
@@ -140,7 +143,7 @@ func run(r *core.Run) {
 			}
 		}
 		pool := makePool(f, thorough, extra)
-		ts := newTupleSpace(f.Key.Arity, len(pool.items), pool.nbase, fullArity, fullCap)
+		ts := newTupleSpace(f.Key.Arity, len(pool.items), pool.nbase, fullArity, fullCap, core.Pick(r, "basepairs", "mixed"))
 		if ts.shape != "full" {
 			ok := pairsCovered(ts.rows, ts.k, ts.n)
 			covering[f.Key.String()] = map[string]any{"shape": ts.shape, "factors": ts.k, "levels": ts.n, "base_levels": ts.nbase,
@@ -177,7 +180,7 @@ func run(r *core.Run) {
 		r.Extra("base_pool", len(basePool(thorough)))
 		r.Extra("option_values_per_key", len(optValues(thorough)))
 		r.Extra("product", "full product of (base pool + option objects of the function) over input and every argument for arity <= 2 "+
-			"(functions whose product exceeds "+fmt.Sprint(fullCap)+" tuples use the mixed shape listed under covering_arrays); strength-2 covering array for arity >= 3")
+			"(functions whose product exceeds "+fmt.Sprint(fullCap)+" tuples use the reduced shape listed under covering_arrays, see pool.go); strength-2 covering array for arity >= 3")
 		if len(covering) > 0 {
 			r.Extra("covering_arrays", covering)
 		}
@@ -185,7 +188,8 @@ func run(r *core.Run) {
 		r.Assume("fq runs in-process behind a virtual OS (no terminal, empty stdin, empty file system); functions reading stdin/readline see EOF")
 		r.Assume("closure (non-$) parameters receive the pool values as constant filters")
 		r.Assume("at most " + fmt.Sprint(outLimit) + " outputs of a call are consumed; each is forced with `type` only")
-		r.Assume("cases stopped by the step/memory watchdog are inconclusive, not violations")
+		r.Assume("cases stopped by the step/memory watchdog are inconclusive, not violations; after two watchdog kills of a function with the same argument vector " +
+			"(different inputs) its remaining inputs for that vector are not executed and counted as inconclusive_skipped_predicted_runaway (rules L1/L2 in exec.go)")
 		r.Logf("functions=%d (go %d, jq %d, generated %d, excluded %d) tuples=%d chunks=%d", nfn, cat.goCount, cat.jqCount, cat.fmtCount, nexcluded, totalTuples, len(chunks))
 	}
 
@@ -225,6 +229,7 @@ func run(r *core.Run) {
 		base += c.to - c.from
 	}
 
+	w.run = newRunaway(w.t.Kills)
 	w.startWatchdog()
 	lastLog := time.Now()
 	for ci, c := range mine {
